@@ -15,16 +15,16 @@ impl Prop for Since {
     const NAME: &'static str = "C06.since";
     const BYTES: usize = 96;
     fn gen(u: &mut Unstructured<'_>) -> arbitrary::Result<PairCase> {
-        let a = gen::inst(u, 2)?;
-        let b = gen::inst_near(u, a, 2)?;
+        let a = gen::inst(u, 1)?;
+        let b = gen::inst_near(u, a, 1)?;
         Ok(PairCase { a, b, oa: gen::offset(u)?, ob: gen::offset(u)? })
     }
     fn check(c: &PairCase, cx: &mut Cx) -> Verdict {
         if !c.a.valid() || !c.b.valid() || c.oa.abs() > 86_399 || c.ob.abs() > 86_399 {
             return Verdict::Skip("malformed case");
         }
-        if c.a.day < cal::MIN_DAY + 2 || c.a.day > cal::MAX_DAY - 2 || c.b.day < cal::MIN_DAY + 2 || c.b.day > cal::MAX_DAY - 2 {
-            return Verdict::Skip("within 2 days of a range end (set_offset undefined there)");
+        if c.a.day < cal::MIN_DAY + 1 || c.a.day > cal::MAX_DAY - 1 || c.b.day < cal::MIN_DAY + 1 || c.b.day > cal::MAX_DAY - 1 {
+            return Verdict::Skip("on an outermost day of the range (set_offset undefined there)");
         }
         let (ia, ib) = (c.a.i(), c.b.i());
         let delta = ia - ib;
@@ -171,10 +171,10 @@ impl Prop for Inverts {
     const NAME: &'static str = "C06.inverts_add";
     const BYTES: usize = 64;
     fn gen(u: &mut Unstructured<'_>) -> arbitrary::Result<InvCase> {
-        Ok(InvCase { a: gen::inst(u, 2)?, off: gen::offset(u)?, unit: u.below(7)? as u8, n: gen::count(u)?, sub: u.coin(1, 2)? })
+        Ok(InvCase { a: gen::inst(u, 1)?, off: gen::offset(u)?, unit: u.below(7)? as u8, n: gen::count(u)?, sub: u.coin(1, 2)? })
     }
     fn check(c: &InvCase, cx: &mut Cx) -> Verdict {
-        if !c.a.valid() || c.off.abs() > 86_399 || c.unit > 6 || c.a.day < cal::MIN_DAY + 2 || c.a.day > cal::MAX_DAY - 2 {
+        if !c.a.valid() || c.off.abs() > 86_399 || c.unit > 6 || c.a.day < cal::MIN_DAY + 1 || c.a.day > cal::MAX_DAY - 1 {
             return Verdict::Skip("malformed case");
         }
         let ia = c.a.i();
